@@ -631,6 +631,11 @@ class MiniEval(object):
                      self.ev(node.step, env) if node.step else None)
 
     def ev_Attribute(self, node, env):
+        dn = dotted_name(node)
+        if dn in ('os.path.extsep', 'os.extsep'):
+            return '.'
+        if dn in ('os.sep', 'os.path.sep'):
+            return '/'
         obj = self.ev(node.value, env)
         return self.getattr(obj, node.attr)
 
